@@ -94,7 +94,11 @@ def build_cases(rng, n, addrs=None, names=None):
             r = rng.random()
             if r < 0.04:
                 ops.append("K")
+            elif r < 0.06:
+                ops.append("D")
             elif r < 0.08:
+                ops.append("U:" + hexs(rng.choice(["lettre", "agent/1.0 (x)", "a\r\nX-Injected: 1", "é" * 30, "x" * 120, "tok\r\n\r\nbody"])))
+            elif r < 0.12:
                 f = rng.choice(GOOD_ADDRS + ["-"])
                 to = [rng.choice(GOOD_ADDRS) for _ in range(rng.randint(1, 3))]
                 ops.append(f"E:{hexs(f) if f != '-' else '-'}:{';'.join(hexs(t) for t in to)}")
